@@ -230,28 +230,11 @@ func c12DigitClass(c *Ctx, ns *numberScanner) {
 
 func c12IdentAfter(c *Ctx, ns *numberScanner) {
 	const rule = "C12.ident-after-number"
-	if ns.Check == nil {
-		c.R.Check(rule, "check-called", c.P.Pos(ns.Num.Pos()), false, "the number scanner does not call an identifier-follows check: `1abc` would scan as a number followed by a name")
-		return
-	}
-	isCheck := func(in ssa.Instruction) bool {
-		call, ok := in.(*ssa.Call)
-		return ok && calleeOf(call) == ns.Check
-	}
-	// every path from the function entry to a return passes the check, after the last fragment call on that path
-	missing := pathExists(ns.Num, nil, isReturn, isCheck, nil)
-	c.R.Check(rule, "check-on-every-path", c.P.Pos(ns.Num.Pos()), !missing, "there is a path through the number scanner that skips the identifier-follows check")
-	late := false
-	for _, chk := range callsTo(ns.Num, ns.Check) {
-		for _, fr := range callsTo(ns.Num, ns.Frag) {
-			if pathExists(ns.Num, chk, func(x ssa.Instruction) bool { return x == ssa.Instruction(fr) }, nil, nil) {
-				late = true
-			}
-		}
-	}
-	c.R.Check(rule, "check-after-last-fragment", c.P.Pos(ns.Num.Pos()), !late, "a digit fragment is scanned after the identifier-follows check: the check must see the position after the whole literal")
-	// the check: on isIdentifierStart(peek at pos) it raises the diagnostic
+	// the check: its own method, or written out at the end of the number scanner
 	f := ns.Check
+	if f == nil {
+		f = ns.Num
+	}
 	var isStart *ssa.Call
 	instrs(f, func(b *ssa.BasicBlock, i int, in ssa.Instruction) {
 		if call, ok := in.(*ssa.Call); ok {
@@ -260,6 +243,40 @@ func c12IdentAfter(c *Ctx, ns *numberScanner) {
 			}
 		}
 	})
+	if ns.Check == nil && isStart == nil {
+		c.R.Check(rule, "check-called", c.P.Pos(ns.Num.Pos()), false, "the number scanner does not call an identifier-follows check: `1abc` would scan as a number followed by a name")
+		return
+	}
+	isCheck := func(in ssa.Instruction) bool {
+		call, ok := in.(*ssa.Call)
+		if !ok {
+			return false
+		}
+		if ns.Check != nil {
+			return calleeOf(call) == ns.Check
+		}
+		return call == isStart
+	}
+	// every path from the function entry to a return passes the check, after the last fragment call on that path
+	missing := pathExists(ns.Num, nil, isReturn, isCheck, nil)
+	c.R.Check(rule, "check-on-every-path", c.P.Pos(ns.Num.Pos()), !missing, "there is a path through the number scanner that skips the identifier-follows check")
+	late := false
+	var checks []ssa.Instruction
+	if ns.Check != nil {
+		for _, chk := range callsTo(ns.Num, ns.Check) {
+			checks = append(checks, chk)
+		}
+	} else {
+		checks = append(checks, isStart)
+	}
+	for _, chk := range checks {
+		for _, fr := range callsTo(ns.Num, ns.Frag) {
+			if pathExists(ns.Num, chk, func(x ssa.Instruction) bool { return x == ssa.Instruction(fr) }, nil, nil) {
+				late = true
+			}
+		}
+	}
+	c.R.Check(rule, "check-after-last-fragment", c.P.Pos(ns.Num.Pos()), !late, "a digit fragment is scanned after the identifier-follows check: the check must see the position after the whole literal")
 	if isStart == nil {
 		c.R.Check(rule, "tests-identifier-start", c.P.Pos(f.Pos()), false, "the check must test the following character with the identifier-start class")
 		return
